@@ -27,7 +27,7 @@ variable {α δ : Type} [Num α] [Num δ] [Conv α δ]
   | nil => rfl
   | cons c t ih => simp [ih, single, Nat.add_comm]
 
-@[simp] theorem cadd_weight (a b : Centroid α) : (cadd a b).weight = a.weight + b.weight := rfl
+@[simp] theorem cadd_weight {safe : Bool} (a b : Centroid α) : (cadd safe a b).weight = a.weight + b.weight := rfl
 
 theorem sumWeights_insertC (x : Centroid α) (l : List (Centroid α)) :
     sumWeights (insertC x l) = x.weight + sumWeights l := by
@@ -54,9 +54,9 @@ theorem stableSort_eq_nil {l : List (Centroid α)} : stableSort l = [] ↔ l = [
   | nil => simp [stableSort]
   | cons x xs => simp [stableSort, insertC_ne_nil]
 
-theorem sumWeights_cluster (sc : Scale δ) (kc cwD : δ) (xs : List (Centroid α)) :
+theorem sumWeights_cluster (safe : Bool) (sc : Scale δ) (kc cwD : δ) (xs : List (Centroid α)) :
     ∀ (first : Bool) (cur : Centroid α) (wsf : δ),
-      sumWeights (cluster sc kc cwD first cur wsf xs) = cur.weight + sumWeights xs := by
+      sumWeights (cluster safe sc kc cwD first cur wsf xs) = cur.weight + sumWeights xs := by
   induction xs with
   | nil => intro first cur wsf; simp [cluster]
   | cons x xs ih =>
@@ -66,8 +66,8 @@ theorem sumWeights_cluster (sc : Scale δ) (kc cwD : δ) (xs : List (Centroid α
     · rw [ih]; simp; omega
     · simp [ih]
 
-theorem cluster_ne_nil (sc : Scale δ) (kc cwD : δ) (xs : List (Centroid α)) (first : Bool) (cur : Centroid α) (wsf : δ) :
-    cluster sc kc cwD first cur wsf xs ≠ [] := by
+theorem cluster_ne_nil (safe : Bool) (sc : Scale δ) (kc cwD : δ) (xs : List (Centroid α)) (first : Bool) (cur : Centroid α) (wsf : δ) :
+    cluster safe sc kc cwD first cur wsf xs ≠ [] := by
   cases xs with
   | nil => simp [cluster]
   | cons x xs => simp only [cluster]; split <;> simp [cluster_ne_nil]
@@ -88,7 +88,7 @@ theorem sumWeights_mergeSeq (s : St α) (tmp : List (Centroid α)) :
 
 /-- the centroid list `merge(buffer, weight)` leaves behind, given the iteration sequence `x :: xs` -/
 def mergeOut (sc : Scale δ) (tun : Tun) (s : St α) (weight : Nat) (x : Centroid α) (xs : List (Centroid α)) : List (Centroid α) :=
-  let out := cluster sc (ofNat (tun.comprMul * s.k) : δ) (ofNat (s.cw + weight)) true x (ofNat 0) xs
+  let out := cluster tun.caddSafe sc (ofNat (tun.comprMul * s.k) : δ) (ofNat (s.cw + weight)) true x (ofNat 0) xs
   if s.rev then out.reverse else out
 
 theorem mergeCore_of_seq (sc : Scale δ) (tun : Tun) (s : St α) (tmp : List (Centroid α)) (weight : Nat)
